@@ -164,6 +164,11 @@ func C11(c *core.Ctx) {
 				extraVals = append(extraVals, gen.GenValue(r, 2, false))
 			}
 		}
+		// a chunk entry that is present and holds the empty string (an id all the same: the entry exists)
+		if !m.Opts.Absent && len(m.Opts.Chunk) == 0 && r.Intn(4) == 0 {
+			extra = append(extra, []byte("chunk"))
+			extraVals = append(extraVals, gen.Str([]byte{}))
+		}
 		var enc []byte
 		how := "alt"
 		if r.Intn(4) == 0 && len(extra) == 0 {
